@@ -15,7 +15,7 @@ struct Plant {
     construct: &'static str,
     position: &'static str,
     depth: usize,
-    /// 0 none, 1 serde(skip), 2 typeshare(skip)
+    /// 0 none, 1 serde(skip), 2 typeshare(skip), 3-6 skip next to other arguments / in a second attribute
     skip: u8,
     source: String,
     skippable: bool,
@@ -47,6 +47,11 @@ fn skip_attr(skip: u8) -> &'static str {
     match skip {
         1 => "#[serde(skip)]\n",
         2 => "#[typeshare(skip)]\n",
+        // the same two, as one argument among several of the attribute or as the second attribute of its kind
+        3 => "#[serde(rename = \"renamedAway\", skip)]\n",
+        4 => "#[serde(skip, alias = \"other\")]\n",
+        5 => "#[typeshare(typescript(readonly), skip)]\n",
+        6 => "#[serde(default)]\n#[serde(skip)]\n",
         _ => "",
     }
 }
@@ -57,7 +62,10 @@ fn plants(rng: &mut Rng, per_cell: usize) -> Vec<Plant> {
     for (cname, leaf) in LEAVES {
         for position in ["struct-field", "struct-variant-field", "newtype-payload", "generic-argument", "alias-target", "serialized-as-field", "serialized-as-item", "serialized-as-tuple-struct-field", "serialized-as-variant-payload", "serialized-as-struct-variant-field"] {
             for depth in 0..=5usize {
-                for skip in 0..3u8 {
+                for skip in 0..7u8 {
+                    if skip >= 3 && depth % 3 != 0 {
+                        continue;
+                    }
                     for _ in 0..per_cell {
                         let ty = chain(leaf, depth, rng);
                         let sk = skip_attr(skip);
@@ -83,7 +91,7 @@ fn plants(rng: &mut Rng, per_cell: usize) -> Vec<Plant> {
         }
     }
     // structural constructs
-    for skip in 0..3u8 {
+    for skip in 0..7u8 {
         let sk = skip_attr(skip);
         let structural: Vec<(&'static str, &'static str, String, bool)> = vec![
             ("tuple-variant-2-fields", "variant", format!("#[typeshare]\n#[serde(tag = \"t\", content = \"c\")]\npub enum Victim {{\n    A(u8),\n    {sk}    B(u8, String),\n}}\n"), true),
@@ -180,7 +188,7 @@ pub fn run(ctx: &Ctx) -> (Spec, Report) {
                     (LibOutcome::Ok(_), _) => {}
                     (other, _) => rep.violate(
                         format!("C08|skipped-construct-still-rejected|{}|{}|skip{}", p.construct, p.position, p.skip),
-                        format!("{} under {} is still rejected: {}", p.construct, if p.skip == 1 { "serde(skip)" } else { "typeshare(skip)" }, other.describe()),
+                        format!("{} under {} is still rejected: {}", p.construct, skip_attr(p.skip).trim().replace('\n', " "), other.describe()),
                         detail(),
                     ),
                 }
@@ -324,7 +332,7 @@ pub fn run(ctx: &Ctx) -> (Spec, Report) {
     let _ = std::fs::remove_dir_all(&scratch);
     let spec = Spec {
         level: "fault_enumeration",
-        rule: format!("a supported background program plus exactly one planted unsupported construct: {{u64, i64, usize, isize, tuple type}} x 10 positions (struct field, struct-variant field, newtype payload, generic argument, alias target, serialized_as on a struct field / item / tuple-struct field / variant payload / struct-variant field) x wrapper chains of depth 0-5 (Vec, Option, HashMap key/value, Box, array, slice, reference, user generic) x {{no skip, serde(skip), typeshare(skip)}}, plus tuple structs / variants, serde(flatten) in 3 spellings and 2 positions, data enums without tag/content, tag/content on unit enums and 9 non-integer-literal consts: {} plants x 6 languages through the library (must be rejected with an error naming the file; skipped twins must succeed), and {n_cli} cells through the real binary under strace with and without a pre-existing output, single- and multi-file, alone or with valid sibling files of the same crate, the offending item next to accepted items or as the only annotated item of its file, and bystander crates, delivered to the collector in arrival, reversed or seeded order (no create/truncate/write/rename/unlink/mkdir event on the output location, bytes/mtime/inode unchanged); distinct = (construct, position, depth, skip, outcome)", all.len()),
+        rule: format!("a supported background program plus exactly one planted unsupported construct: {{u64, i64, usize, isize, tuple type}} x 10 positions (struct field, struct-variant field, newtype payload, generic argument, alias target, serialized_as on a struct field / item / tuple-struct field / variant payload / struct-variant field) x wrapper chains of depth 0-5 (Vec, Option, HashMap key/value, Box, array, slice, reference, user generic) x {{no skip, serde(skip), typeshare(skip), and at depths 0 and 3 either one among other arguments of the attribute (before / after a name-value or list argument) or in a second serde attribute}}, plus tuple structs / variants, serde(flatten) in 3 spellings and 2 positions, data enums without tag/content, tag/content on unit enums and 9 non-integer-literal consts: {} plants x 6 languages through the library (must be rejected with an error naming the file; skipped twins must succeed), and {n_cli} cells through the real binary under strace with and without a pre-existing output, single- and multi-file, alone or with valid sibling files of the same crate, the offending item next to accepted items or as the only annotated item of its file, and bystander crates, delivered to the collector in arrival, reversed or seeded order (no create/truncate/write/rename/unlink/mkdir event on the output location, bytes/mtime/inode unchanged); distinct = (construct, position, depth, skip, outcome)", all.len()),
         assumptions: vec![
             "consts are planted only for backends with const support (TypeScript, Go, Python)".into(),
             "a run that panics or hangs is C07's finding and counted as inconclusive here".into(),
